@@ -228,13 +228,15 @@ def tally(ctx, trace):
                     inc('tokreq:challenge-text-kept')
             elif op == 'tokresp':
                 inc('tokresp:' + e['kind'] + (':life' if e['life'] else '') + (':newrt' if e['rt'] else ''))
+                if e.get('delay'):
+                    inc('tokresp:delayed-past-a-cached-token-expiry')
             else:
                 inc(op)
 
 
 NEEDED = {
     'C10': ['regreq:1:bearer', 'regreq:2:bearer', 'regreq:1:static', 'tokreq:POST:refresh', 'tokreq:GET:none', 'tokresp:grant', 'tokresp:grant:life',
-            'tokresp:e401', 'tick', 'tokreq:challenge-text-kept', 'shape:expired-token-behind-live-one-needed-again'],
+            'tokresp:e401', 'tick', 'tokreq:challenge-text-kept', 'shape:expired-token-behind-live-one-needed-again', 'tokresp:delayed-past-a-cached-token-expiry'],
     'C11': ['regreq:2:basic', 'regreq:1:basic', 'tokreq:GET:basic', 'tokreq:POST:refresh', 'tokresp:e404', 'cfglookup', 'end:403', 'end:-1',
             'begin:body=plain', 'begin:body=getbody', 'regresp:401:other', 'regresp:401:bad', 'regresp:401:basic+bearer', 'tokresp:grant:newrt', 'begin:host-header-names-another-host'],
 }
